@@ -22,7 +22,10 @@ def elems(a):
     if isinstance(a, SBase):
         return a.elems
     if isinstance(a, _np.ndarray):
-        return list(a.ravel()) if a.dtype.kind == 'O' else a.ravel().tolist()
+        if a.dtype.kind == 'O':
+            # numpy stores a 0-d array assigned into an object array as the 0-d array itself: unwrap
+            return [e.item() if isinstance(e, _np.ndarray) and e.ndim == 0 else e for e in a.ravel()]
+        return a.ravel().tolist()
     if isinstance(a, _np.generic):
         return [a.item()]
     if isinstance(a, (list, tuple)):
